@@ -97,6 +97,12 @@ def coq_pred(p):
         return f"(PEqC {p[1]} {coq_cell(p[2])})"
     if k == "eqcols":
         return f"(PEqCols {p[1]} {p[2]})"
+    if k == "mulgt":
+        return f"(PMulGt {p[1]}%nat {p[2]}%nat {zlit(p[3])})"
+    if k == "sqgt":
+        return f"(PSqGt {p[1]}%nat {zlit(p[2])})"
+    if k == "addgt":
+        return f"(PAddGt {p[1]}%nat {p[2]}%nat {zlit(p[3])})"
     if k == "not":
         return f"(PNot {coq_pred(p[1])})"
     raise ValueError(k)
@@ -110,6 +116,10 @@ def coq_expr(e):
         return f"(EAdd {e[1]} {e[2]})"
     if k == "iseq":
         return f"(EIsEq {e[1]} {coq_cell(e[2])})"
+    if k == "mul":
+        return f"(EMul {e[1]}%nat {e[2]}%nat)"
+    if k == "sq":
+        return f"(ESq {e[1]}%nat)"
     raise ValueError(k)
 
 
@@ -186,6 +196,12 @@ STR_POOL_PREFIX_FREE = ["a", "b", "B", "c", "zz", "ba", "é", "xy"]
 SPECIAL_CELLS = ["", ",", "\t", '"', "a,b", '"q"', " x ", "a\nb", "\n", 'a"b,c\td', "x\ty", "''", "a"]
 
 
+BIG_INTS = [2 ** 33 + 1, -(2 ** 35), 2 ** 62, 7, -3, 4_000_000_000, 3_000_000_000, -(2 ** 62), 3_037_000_500]
+# products and squares of these are never in [2^63, 2^64) (numpy.array would hold such a result, next to a
+# negative one, as float64), so derived columns stay exact Python ints
+BIG_INTS_DERIVE = [2 ** 33 + 1, -(2 ** 35), 2 ** 62, 7, -3]
+
+
 def rand_col(rng, typ, n, small=True):
     if typ == "int":
         return [rng.randint(-2, 4 if small else 40) for _ in range(n)]
@@ -195,6 +211,9 @@ def rand_col(rng, typ, n, small=True):
         return [rng.choice(STR_POOL_PREFIX_FREE) for _ in range(n)]
     if typ == "bool":
         return [rng.random() < 0.5 for _ in range(n)]
+    if typ == "big":
+        # magnitudes whose products / squares leave int64 (Python ints are unbounded)
+        return [rng.choice(BIG_INTS) for _ in range(n)]
     if typ == "float":
         return [rng.choice([0.5, -1.25, 2.0, 0.1, 3.75, 1e-3, 2.0, 1e20]) for _ in range(n)]
     if typ == "intnone":
@@ -230,7 +249,7 @@ def rand_table(rng, names=None, nmax=8, types=None, nrows=None):
     n = rng.choice([0, 1, 1, 2, 3, 4, 5, 6, nmax]) if nrows is None else nrows
     cols, typs = [], []
     for _ in names:
-        typ = rng.choice(types or ["int", "int", "str", "strpf", "bool", "intnone", "mixed", "uniq", "uniqstr", "float"])
+        typ = rng.choice(types or ["int", "int", "str", "strpf", "bool", "intnone", "mixed", "uniq", "uniqstr", "float", "big"])
         typs.append(typ)
         cols.append(rand_col(rng, typ, n))
     return dict(header=names, cols=cols, types=typs)
@@ -244,6 +263,13 @@ def rand_pred(rng, tb, cols):
     ints = [i for i, k in enumerate(kinds) if k in "ibf"]
     if ints:
         choices.append(["gt", rng.choice(ints), rng.randint(-1, 3)])
+    pure_ints = [i for i, k in enumerate(kinds) if k == "i"]
+    if pure_ints:
+        a, b = rng.choice(pure_ints), rng.choice(pure_ints)
+        kk = rng.choice([0, 10 ** 19, -(10 ** 19), 2 ** 63, 2 ** 64, 12, -(2 ** 63)])
+        choices.append(["mulgt", a, b, kk])
+        choices.append(["sqgt", a, rng.choice([10 ** 19, 2 ** 64, 40, 2 ** 63])])
+        choices.append(["addgt", a, b, rng.choice([0, 2 ** 62, -(2 ** 62), 2 ** 63])])
     i = rng.randrange(len(sel))
     col = tb["cols"][tb["header"].index(sel[i])]
     if col:
@@ -263,8 +289,15 @@ def rand_expr(rng, tb, cols):
     choices = [["const", rng.choice([0, 5, "k", True])], ["iseq", rng.randrange(len(sel)), rng.choice([1, "a", True, 0])]]
     ints = [i for i, k in enumerate(kinds) if k == "i"]
     strs = [i for i, k in enumerate(kinds) if k == "U"]
-    if ints:
-        choices.append(["add", rng.choice(ints), rng.choice(ints)])
+    def col_of(i):
+        return tb["cols"][tb["header"].index(sel[i])]
+    small = [i for i in ints if all(abs(x) < 2 ** 31 for x in col_of(i))]
+    derive = [i for i in ints if all(x in BIG_INTS_DERIVE or abs(x) < 2 ** 15 for x in col_of(i))]
+    if small:
+        choices.append(["add", rng.choice(small), rng.choice(small)])
+    if derive:
+        choices.append(["mul", rng.choice(derive), rng.choice(derive)])
+        choices.append(["sq", rng.choice(derive)])
     if strs:
         choices.append(["add", rng.choice(strs), rng.choice(strs)])
     return rng.choice(choices)
@@ -347,10 +380,10 @@ def rand_op(rng, tb, tables):
             return o
     if w < 0.55 and header:
         cols = sub_cols(rng, header)
-        return dict(op="filtered", pred=rand_pred(rng, tb, cols), columns=cols)
+        return dict(op="filtered", pred=rand_pred(rng, tb, cols), columns=cols, form=rng.choice(["callable", "string"]))
     if w < 0.62 and header:
         cols = sub_cols(rng, header)
-        return dict(op="count", pred=rand_pred(rng, tb, cols), columns=cols)
+        return dict(op="count", pred=rand_pred(rng, tb, cols), columns=cols, form=rng.choice(["callable", "string"]))
     if w < 0.67 and header:
         return dict(op="filtered_by_column", cell=rng.choice([1, "a", True, None, 0, "zz"]))
     if w < 0.74 and header:
@@ -358,7 +391,8 @@ def rand_op(rng, tb, tables):
     if w < 0.82 and header:
         cols = sub_cols(rng, header)
         name = rng.choice(["new", "new", rng.choice(header)])
-        return dict(op="with_new_column", name=name, expr=rand_expr(rng, tb, cols), columns=cols)
+        return dict(op="with_new_column", name=name, expr=rand_expr(rng, tb, cols), columns=cols,
+                    form=rng.choice(["callable", "string"]))
     if w < 0.88 and header:
         return dict(op="distinct", columns=sub_cols(rng, header, allow_none=False, kmax=2))
     if w < 0.94 and header:
@@ -540,6 +574,33 @@ def exhaustive_sort_block(tier):
     return cases
 
 
+def bigint_block(tier):
+    """integer columns of magnitude up to 2^62 with callbacks that multiply / square / add them, as a callable
+    and as a string, for filtered / count / with_new_column; Python semantics: unbounded ints"""
+    t0 = dict(header=["n", "m", "s"],
+              cols=[[4_000_000_000, 3, -(2 ** 62), 2 ** 33 + 1, -3_000_000_000, 3_037_000_500],
+                    [3_000_000_000, 2 ** 62, 4, -(2 ** 35), 3_000_000_000, 3_037_000_500],
+                    ["a", "b", "c", "d", "e", "f"]])
+    t1 = dict(header=["n", "m"], cols=[[2 ** 33 + 1, -(2 ** 35), 2 ** 62, 7, -3], [2 ** 62, 7, -3, 2 ** 33 + 1, -(2 ** 35)]])
+    cases = []
+    ks = [0, 10 ** 19, -(10 ** 19), 2 ** 63, 2 ** 64, -(2 ** 63), 9 * 10 ** 18]
+    for form in ("callable", "string"):
+        for op in ("filtered", "count"):
+            for k in ks:
+                cases.append(dict(kind="ops", tables=[t0], block="bigint",
+                                  ops=[dict(op=op, pred=["mulgt", 0, 1, k], columns=["n", "m"], form=form)]))
+                cases.append(dict(kind="ops", tables=[t0], block="bigint",
+                                  ops=[dict(op=op, pred=["sqgt", 0, abs(k)], columns=["n"], form=form)]))
+                cases.append(dict(kind="ops", tables=[t0], block="bigint",
+                                  ops=[dict(op=op, pred=["addgt", 0, 1, k], columns=None if k % 2 else ["n", "m"], form=form)]))
+        for e, cols in ((["mul", 0, 1], ["n", "m"]), (["sq", 0], ["n"]), (["sq", 1], None), (["mul", 1, 0], ["m", "n"]),
+                        (["mul", 0, 0], ["n", "m"])):
+            cases.append(dict(kind="ops", tables=[t1], block="bigint",
+                              ops=[dict(op="with_new_column", name="c", expr=e, columns=cols, form=form),
+                                   dict(op="count", pred=["sqgt", 2, 2 ** 64], columns=None, form=form)]))
+    return cases
+
+
 def exhaustive_types_block(tier):
     """one fixed table holding a column of every dtype (int, str with the empty string, bool, int-with-None,
     mixed objects with 1 / True / "1" / None / 0 / False): filtered / count with an equality test against
@@ -707,6 +768,19 @@ def corpus_cases():
         rt_case(dict(header=["a", "b"], cols=[["1/0", "x"], ["p", "y"]]), "\t", ["tsv"], "corpus"),
         # integers beyond int64: OverflowError escapes cast_str_to_numeric
         rt_case(dict(header=["id", "n"], cols=[[2 ** 70, 2], [1, 2]]), "\t", ["tsv", "json"], "corpus"),
+        # natural join of tables whose shared columns stand in a different order
+        dict(kind="ops", block="corpus",
+             tables=[dict(header=["a", "b", "p"], cols=[[1, 2], [2, 1], ["x", "y"]]),
+                     dict(header=["b", "a", "q"], cols=[[2, 1], [1, 2], ["u", "v"]])],
+             ops=[dict(op="join", other=1, cs=None, co=None, inner=True, prefix="right_")]),
+        # transposed(select_as_header=b) of a table whose index_name is another column
+        dict(kind="ops", block="corpus",
+             tables=[dict(header=["a", "b", "c"], cols=[["r1", "r2"], ["k1", "k2"], [1, 2]], index_name="a")],
+             ops=[dict(op="transposed", new="new", sah="b")]),
+        # text that evaluates to a container: "1,2" is the tuple (1, 2), "[1,2]" a list
+        rt_case(dict(header=["a", "b"], cols=[["1,2", "x"], ["[1,2]", "y"]]), "\t", ["tsv"], "corpus"),
+        # a .bz2 suffix is honoured on load but written as <name>.bz2.gz
+        rt_case(dict(header=["a"], cols=[[1, 2]]), "\t", ["tsv.bz2"], "corpus"),
         # .pkl is read as pickle but not written as pickle
         rt_case(dict(header=["a"], cols=[[1, 2]]), "\t", ["pkl"], "corpus"),
     ]
@@ -734,6 +808,12 @@ def o_pred(p):
         return lambda r: r[p[1]] == p[2]
     if k == "eqcols":
         return lambda r: r[p[1]] == r[p[2]]
+    if k == "mulgt":
+        return lambda r: r[p[1]] * r[p[2]] > p[3]
+    if k == "sqgt":
+        return lambda r: r[p[1]] ** 2 > p[2]
+    if k == "addgt":
+        return lambda r: r[p[1]] + r[p[2]] > p[3]
     if k == "not":
         q = o_pred(p[1])
         return lambda r: not q(r)
@@ -748,6 +828,10 @@ def o_expr(e):
         return lambda r: r[e[1]] + r[e[2]]
     if k == "iseq":
         return lambda r: r[e[1]] == e[2]
+    if k == "mul":
+        return lambda r: r[e[1]] * r[e[2]]
+    if k == "sq":
+        return lambda r: r[e[1]] ** 2
     raise ValueError(k)
 
 
@@ -794,7 +878,8 @@ def sort_spec(header, rows, columns, reverse, kinds=None):
 
 def join_key_names(h0, h1, cs, co):
     if cs is None and co is None:
-        return [c for c in h0 if c in h1], [c for c in h1 if c in h0]
+        ks = [c for c in h0 if c in h1]
+        return ks, list(ks)          # natural join: the same-named columns are compared
     if cs is None or co is None:
         k = cs or co
         return k, k
@@ -924,12 +1009,20 @@ def _same_type(a, b):
     return {type(a), type(b)} == {int, float}
 
 
+def natural_order_differs(o, cur, tables):
+    if o["op"] != "join" or not o["inner"] or o["cs"] is not None or o["co"] is not None:
+        return False
+    h0, h1 = cur["header"], tables[o["other"]]["header"]
+    return [c for c in h0 if c in h1] != [c for c in h1 if c in h0]
+
+
 def in_refuted_region(o, cur, tables):
     """inputs on which the faithful model is PROVED to violate the specification (`_refuted` theorems of
-    Properties/C20.v).  For table operations there is none left (the reverse-sort and cross-join defects
-    were repaired and the model follows the repaired code); the carriage-return region of the delimited
-    round trip is handled in compare_rt."""
-    return False
+    Properties/C20.v): there an implementation that agrees with the specification is accepted without
+    consulting the model (the code has been repaired), and one that does not is a violation anyway.
+    Left: the natural join of two tables whose shared columns stand in a different order (the code pairs the
+    key columns by position); the carriage-return region of the delimited round trip is handled in compare_rt."""
+    return natural_order_differs(o, cur, tables)
 
 
 def _decode_obs(v):
@@ -993,6 +1086,8 @@ def classify_ops(o, cur, tables, obs, exp):
         empty = not rows_of(cur) or not rows_of(tables[o["other"]])
         return "cross_join:empty-table" if empty else "cross_join:rows"
     if k == "join":
+        if natural_order_differs(o, cur, tables):
+            return "inner_join:natural:shared-columns-in-different-order"
         return "inner_join:" + ("natural" if o["cs"] is None and o["co"] is None else "explicit-keys")
     if k == "sorted":
         if is_exc(obs):
@@ -1007,7 +1102,22 @@ def classify_ops(o, cur, tables, obs, exp):
                 [[r[i] for i in idx] for r in got] == [[r[i] for i in idx] for r in exp_rows]:
             return "sorted:unstable-ties"
         return "sorted:order"
+    if k in ("filtered", "count", "with_new_column") and effective_form(o, cur) == "string":
+        return k + ":string-callback" + (":raises" if is_exc(obs) else "")
+    if tables and tables[0].get("index_name"):
+        return k + ":index_name-set"
     return k + (":raises" if is_exc(obs) else ":rows")
+
+
+def effective_form(o, cur):
+    """the impl runner uses the string form only when every selected column name is an identifier"""
+    import keyword
+
+    if o.get("form") != "string":
+        return "callable"
+    names = o["columns"] if o.get("columns") is not None else cur["header"]
+    ok = all(isinstance(c, str) and c.isidentifier() and not keyword.iskeyword(c) for c in names)
+    return "string" if ok and names else "callable"
 
 
 def compare_ops(rep, c, ir, mr, stats):
@@ -1022,6 +1132,21 @@ def compare_ops(rep, c, ir, mr, stats):
         if i >= len(ir):
             break
         obs = _decode_obs(ir[i])
+        seen_types = None
+        if o["op"] in ("filtered", "with_new_column") and isinstance(obs, list) and len(obs) == 5:
+            seen_types, obs = obs[4], obs[:4]
+        elif o["op"] == "count" and isinstance(obs, list):
+            seen_types, obs = obs[1], obs[0]
+        if seen_types is not None:
+            stats["cb_types"] = sorted(set(stats.get("cb_types", [])) | set(seen_types))
+            bad_types = [t for t in seen_types if t not in ("int", "float", "str", "bool", "NoneType")]
+            if bad_types:
+                stats["spec_violations"] += 1
+                rep.violation(o["op"] + ":callable-sees-non-python-values",
+                              dict(case=dict(kind="ops", tables=[dict(header=cur["header"], cols=cur["cols"])] + tables[1:], ops=[o]),
+                                   op=o, expected_by_spec="the callable is handed Python int/float/str/bool/None values",
+                                   observed_impl=dict(types_handed_to_callable=seen_types),
+                                   broken="a callable callback received numpy scalars instead of Python values"))
         if o["op"] == "distinct" and isinstance(obs, list):
             obs = sorted(obs, key=repr)  # canonical order after floats are decoded
         stats["steps"] += 1
@@ -1033,7 +1158,10 @@ def compare_ops(rep, c, ir, mr, stats):
             mr = None  # the model stopped at an error the implementation (legitimately, see below) did not have
         m = mr[i] if mr is not None else None
         obs_cmp = {"exc": obs["exc"]} if is_exc(obs) else strip_kinds(obs)
-        small = dict(kind="ops", tables=[dict(header=cur["header"], cols=cur["cols"])] + tables[1:], ops=[o], block=c.get("block"))
+        first = dict(header=cur["header"], cols=cur["cols"])
+        if i == 0 and tables[0].get("index_name"):
+            first["index_name"] = tables[0]["index_name"]
+        small = dict(kind="ops", tables=[first] + tables[1:], ops=[o], block=c.get("block"))
         bad = False
         if exp is not None:
             stats["oracle_applied"] += 1
@@ -1152,7 +1280,11 @@ def numeric_restoration(orig, got):
         lit = ast.literal_eval(orig)
     except Exception:  # noqa: BLE001
         return False
-    return not isinstance(lit, (str, bytes)) and _norm_lit(lit) == got and type(_norm_lit(lit)) is type(got)
+    if isinstance(lit, (str, bytes)) or _norm_lit(lit) != got or type(_norm_lit(lit)) is not type(got):
+        return False
+    # numbers are restored as numbers; any other literal only when the text is exactly its repr
+    # ("()" -> (), "None" -> None), so that the cell text is the same
+    return isinstance(lit, (int, float, complex)) or repr(lit) == orig.strip()
 
 
 def loaded_text(x):
@@ -1173,6 +1305,8 @@ def classify_rt(tb, fmt, entry):
     base = "delimited" if fmt.split(".")[0] in ("tsv", "csv") else fmt
     if fmt == "pkl":
         return "roundtrip:pkl-suffix-not-written-as-pickle"
+    if fmt.endswith(".bz2"):
+        return "roundtrip:bz2-suffix-written-as-gz"
     if base == "delimited":
         if n == 0:
             return "roundtrip:delimited:table-without-rows"
@@ -1266,12 +1400,14 @@ def model_ok_for(c):
             return math.isfinite(x) and repr(x) != "-0.0" and dec_float(*float_dec(x)) == x
         return x is None or isinstance(x, (bool, int, str))
     tbs = c["tables"] if c["kind"] == "ops" else [c["table"]]
+    if any(t.get("index_name") for t in tbs):
+        return False
     return all(ok(x) for t in tbs for col in t["cols"] for x in col)
 
 
 def build_cases(tier, rng):
     cases = corpus_cases() + error_cases()
-    cases += exhaustive_join_block(tier) + exhaustive_sort_block(tier) + exhaustive_types_block(tier) + exhaustive_rt_block(tier) + typed_rt_block(tier)
+    cases += exhaustive_join_block(tier) + exhaustive_sort_block(tier) + exhaustive_types_block(tier) + bigint_block(tier) + exhaustive_rt_block(tier) + typed_rt_block(tier)
     n_ops = 700 if tier == "quick" else 9000
     n_rt = 250 if tier == "quick" else 3000
     cases += [random_ops_case(rng) for _ in range(n_ops)]
@@ -1348,6 +1484,7 @@ def run(tier: str, seed: int) -> int:
         input_distribution=dict(cases=len(cases), blocks=blocks, ops=stats["ops"], oracle_applied=stats["oracle_applied"],
                                 not_modelled_steps=stats["not_modelled"], modelled_cases=len(midx),
                                 refuted_region_repaired=stats.get("refuted_region_repaired", 0),
+                                types_handed_to_callables=stats.get("cb_types", []),
                                 typed_load_ties=stats.get("typed_ties", 0), typed_load_not_modelled=stats.get("typed_not_modelled", 0),
                                 op_x_dtype=dict(sorted(stats.get("op_dtype", {}).items()))),
         model_impl_disagreements=len(disagreements), spec_violations=stats["spec_violations"],
